@@ -103,6 +103,33 @@ def scenarios(ctx: Ctx):
             sc["live_mode"] = "drift"
             sc["cell"] = f"non-boolean precondition {nb} live={live}"
             yield sc
+    # several predicates fail at once: only the FIRST failing one decides (a later failing `ok` predicate
+    # must not turn a Skip/DepSkip into "passed"); a first failing `ok` predicate ends evaluation: passed
+    for pre in (["Skip"], ["DepSkip"], ["Retry", 5], ["PermFail"]):
+        for tail in (["ok"], ["Retry", "ok"], ["PermFail"], ["Skip"]):
+            for live in ("absent", "drift"):
+                sc = m.rand_scenario(ctx.rng)
+                m.clean_scenario(sc, ctx.rng)
+                sc["cfg"].update({"plural": "widgets", "readonly": False, "delete_if_exists": False, "create_enabled": True})
+                sc["lookup"] = None
+                sc["pre"] = pre
+                sc.pop("pre_nonbool", None)
+                sc["pre_tail"] = tail
+                sc["live"] = None if live == "absent" else "derive"
+                sc["live_mode"] = "drift"
+                sc["cell"] = f"failing predicates {pre[0]} then {tail} live={live}"
+                yield sc
+    for live in ("absent", "drift", "match"):
+        sc = m.rand_scenario(ctx.rng)
+        m.clean_scenario(sc, ctx.rng)
+        sc["cfg"].update({"plural": "widgets"})
+        sc["lookup"] = None
+        sc["pre"] = None
+        sc["pre_ok_first"] = True
+        sc["live"] = None if live == "absent" else "derive"
+        sc["live_mode"] = live
+        sc["cell"] = f"first failing predicate is ok live={live}"
+        yield sc
     # update / create delays left to the CRD schema's defaults (`update: {recreate: {}}`)
     for upd in ("patch", "recreate"):
         for live in ("drift", "drift_noowner", "absent"):
